@@ -41,6 +41,14 @@ func main() {
 			runH1Pause(*out, *seed, *tier)
 		case "nodeflow":
 			runNodeFlow(*out, *seed, *tier)
+		case "nodevalidate":
+			runNodeValidate(*out, *seed, *tier)
+		case "noderestart":
+			runNodeRestart(*out, *seed, *tier)
+		case "nodepeers":
+			runNodePeers(*out, *seed, *tier)
+		case "nodeapi":
+			runNodeAPI(*out, *seed, *tier)
 		case "nodeterminal":
 			runNodeTerminal(*out, *seed, *tier)
 		case "fsmhist":
